@@ -54,7 +54,9 @@ def _verify_one(key):
     from pv.engine3 import verify_function
     from pv import smt
     obs = verify_function(key)
-    return key, obs, dict(smt.STATS)
+    st = dict(smt.STATS)
+    st['trusted_used'] = sorted(st.get('trusted_used', ()))
+    return key, obs, st
 
 
 KEY_DEADLINE_S = int(__import__('os').environ.get('PV_KEY_DEADLINE_S', '900'))
@@ -116,6 +118,7 @@ def verify_keys(report, keys, standin=None, procs=8):
     load_all()
     results = _map_with_deadline(keys, min(procs, max(1, len(keys))), KEY_DEADLINE_S)
     stats = report.extra.setdefault('solver', dict(queries=0, z3_time=0.0, cvc5_time=0.0, cvc5_queries=0))
+    used_trusted = set(report.extra.get('trusted_contracts', ()))
     for key, obs, st in results:
         if not obs:
             continue
@@ -125,6 +128,7 @@ def verify_keys(report, keys, standin=None, procs=8):
             report.add(o)
         for k in stats:
             stats[k] = round(stats[k] + st.get(k, 0), 3)
+        used_trusted.update(st.get('trusted_used', ()))
     report.assume(
         "A-INT: integers are mathematical (Python's are)",
         "A-REC: no RecursionError/MemoryError",
@@ -132,8 +136,10 @@ def verify_keys(report, keys, standin=None, procs=8):
         "declared in contracts/a_base.py",
         "VC generator pv/ (symbolic executor over the real ast, self-validated by must-fail mutants) and z3 5.1 / cvc5 1.0",
         "callee contracts marked trusted (builtins, re, os, pickle) are assumed, listed per evidence file")
-    trusted = sorted(k for k, c in REG.items() if c.trusted)
-    report.extra['trusted_contracts'] = trusted
+    # the assumed (trusted) contracts that the VCs of this property actually called, with what they assume
+    report.extra['trusted_contracts'] = sorted(used_trusted)
+    report.extra['trusted_contract_notes'] = {k: (REG[k].note or 'abstract / external: contract assumed')[:300]
+                                              for k in sorted(used_trusted) if k in REG}
     # the frames the call sites rely on: declared modifies / lists cover what the real code writes (effect analysis)
     from pv import obs_effects as E_
     for o in E_.contract_frame_obligations(keys):
